@@ -108,7 +108,7 @@ def bounded_faults(t, attach=None, force=None) -> Ctx:
 # ---------------------------------------------------------------------------------------------
 
 
-def chaos(t, attach=None, force=None, allow_extra=True) -> Ctx:
+def chaos(t, attach=None, force=None, allow_extra=True, pre=None) -> Ctx:
     """C01 population: arbitrarily many faults of every kind; nothing is demanded about
     completion."""
     f = {"shell": "history", "poll_ms": [100, 50, 200, 250][t.choose(4, "poll")]}
@@ -145,7 +145,12 @@ def chaos(t, attach=None, force=None, allow_extra=True) -> Ctx:
             def decide(op, path, *extra, _t=t):
                 if op in ops and _t.chance(num, den, f"fs reject {op}"):
                     extras["fs_reject"] += 1
-                    return PermissionError(str(path)) if _t.choose(2, "exc kind") == 0 else FileNotFoundError(str(path))
+                    # only the exception types the interface documents for the operation / the
+                    # handler is written for: write_data may raise either, create/truncate are
+                    # rejected with PermissionError (read-only or full store)
+                    if op == "write_data" and _t.choose(2, "exc kind") == 1:
+                        return FileNotFoundError(str(path))
+                    return PermissionError(str(path))
                 return None
 
             w.fs_fault = decide
@@ -180,7 +185,13 @@ def _mk_extra(kind, who, dur, extras):
         w.log.append(f"  EXTRA {kind} who={ent.name} dur={dur}")
         if kind == "restart":
             # only volatile state is lost: a fresh handler; the file and the user's history survive
+            # A transaction whose completion the user could already observe (public step past the
+            # notice of completion) is recorded as closed in the user's durable history.
             b = w.b
+            old = b.handlers["dst"]
+            if old.step.name in ("SENDING_FINISHED_PDU", "WAITING_FOR_FINISHED_ACK") and b.live_tid["dst"] is not None:
+                b.closed["dst"].add(b.live_tid["dst"])
+            b.live_tid["dst"] = None
             b.handlers["dst"] = DestHandler(b.lcfg, b.user, b.table, b.timers)
         elif kind == "clock_jump":
             step = dur if w.tape.choose(2, "jump dir") == 0 else -dur
